@@ -25,6 +25,12 @@ pub fn build_tree(t: &Value) -> Command {
             if o["optional"] == true { x = x.num_args(0..=1); }
             let pvs: Vec<PossibleValue> = o["pvs"].as_array().unwrap().iter().map(|p| PossibleValue::new(st(&p["name"])).hide(p["hide"] == true)).collect();
             if !pvs.is_empty() { x = x.value_parser(PossibleValuesParser::new(pvs)); }
+            match o["hint"].as_str().unwrap_or("") {
+                "other" => x = x.value_hint(clap::ValueHint::Other),
+                "dir" => x = x.value_hint(clap::ValueHint::DirPath),
+                "file" => x = x.value_hint(clap::ValueHint::FilePath),
+                _ => {}
+            }
         } else {
             x = x.action(ArgAction::SetTrue);
         }
